@@ -12,6 +12,8 @@ structure ESt where
   w : WireSt := {}
   retry : Bool := false
   closedLocally : Bool := false
+  /-- the server connection's own bytesReceived after the previous op, when exactly one connection existed -/
+  prevHr : Option Nat := none
 
 def parseEv (s : String) : Option (Bool × Nat × Bool × Bool) :=
   -- (isIn, size, hasHandshake, hasToken)
@@ -66,6 +68,26 @@ def step (s : ESt) (op impl : String) : ESt × StepOut := Id.run do
             s!"{n} bytes written with sent={before.outB} received={before.inB} (3x = {3 * before.inB}) while the client address is unvalidated")]
         if !s.closedLocally && !boundOk s.w.outB s.w.inB s.w.last then
           fails := fails ++ [("wire_amp_bound", "-", s!"sent={s.w.outB} > 3*{s.w.inB} + last datagram {s.w.last}")]
+  if opName == "coalesced" && iw.headD "" == "ok" then tags := tags ++ [s!"coalesced:{w.getD 1 "?"}"]
+  -- the connection's own accounting against the datagram log: a datagram is credited exactly once
+  let fld (k : String) : Option Nat := (iw.findSome? fun x => if x.startsWith k then some (x.drop k.length).toString else none).bind (·.toNat?)
+  let arrivedNow := evs.foldl (fun acc (isIn, n, _, _) => if isIn then acc + n else acc) 0
+  match fld "conns=", fld "hr=" with
+  | some conns, some hr =>
+    if conns ≥ 1 && hr > s.w.inB then
+      fails := fails ++ [("datagram_credited_once", "-", s!"the connection credited {hr} received bytes, only {s.w.inB} arrived at the server")]
+    if conns == 1 then
+      match s.prevHr with
+      | some p =>
+        -- judged only while the client's address is unvalidated (the phase the property is about): later the
+        -- handshake connection IDs are retired and injected datagrams are no longer attributed to the connection
+        if !s.retry && !s.closedLocally && !s.w.validated && hr ≠ p + arrivedNow then
+          fails := fails ++ [("datagram_credited_once", "-", s!"{arrivedNow} bytes arrived in this step, the connection credited {hr - p}")]
+        else tags := tags ++ (if arrivedNow > 0 then ["credited:exact"] else [])
+      | none => pure ()
+      s := { s with prevHr := some hr }
+    else s := { s with prevHr := none }
+  | _, _ => s := { s with prevHr := none }
   return (s, { model := impl, tags := tags, fails := fails })
 
 def main : IO Unit := run { init := ({} : ESt), step := step }
